@@ -213,6 +213,7 @@ func tcpObserve(cl rtMaker, stream []byte, method string, hold, second bool) (ou
 		o.Chunked = len(resp.TransferEncoding) == 1 && resp.TransferEncoding[0] == "chunked"
 		o.Framing = "FrNone" // not observable through RoundTrip; ignored by the TcpCase checker
 		body, berr := io.ReadAll(resp.Body)
+		o.Again = readAgain(resp.Body)
 		resp.Body.Close()
 		o.Body, o.BEnd = body, classifyBodyErr(berr)
 		if berr != nil {
@@ -362,6 +363,11 @@ func checkTCP(r *hk.Run, stream []byte, method, shape string, dumpToo bool) {
 	} else {
 		r.Count("tcp.outcome=accepted:" + fork.O.BEnd)
 	}
+	if fork.O.Rej == "" && againKnown(fork.O) {
+		ca := fmt.Sprintf("AgainCase %s %s %s %s", hk.CoqStr(method), coqBytes(stream), fork.O.BEnd, hk.CoqList(fork.O.Again))
+		r.Add(hk.Case{Coq: ca, Desc: map[string]interface{}{"kind": "again:" + shape, "input": tcpInput(stream, method, shape), "observed": fork}},
+			fmt.Sprintf("a|%s|%x", method, stream), fork.O.BEnd != "BOk")
+	}
 	c := fmt.Sprintf("TcpCase %s %s %s %s", hk.CoqStr(method), coqBytes(stream), fork.O.coq(), reused)
 	r.Add(hk.Case{Coq: c, Desc: map[string]interface{}{"kind": "tcp:" + shape, "input": tcpInput(stream, method, shape), "observed": fork}},
 		fmt.Sprintf("t|%s|%x", method, stream), fork.O.Rej == "")
@@ -457,6 +463,7 @@ func runTCP(r *hk.Run, rng *hk.Rand) {
 	runTCPLimits(r)
 	runSplice(r, rng)
 	runExpect(r, rng)
+	runIdleStray(r)
 }
 
 var _ = bytes.Equal
@@ -534,4 +541,17 @@ func headerHasToken(vals []string, tok string) bool {
 		}
 	}
 	return false
+}
+
+// againKnown: every class in the observation is one the Coq enum has.
+func againKnown(o obs) bool {
+	if o.BEnd == "BOther" || len(o.Again) == 0 {
+		return false
+	}
+	for _, a := range o.Again {
+		if !strings.HasPrefix(a, "B") || a == "BOther" {
+			return false
+		}
+	}
+	return true
 }
